@@ -12,6 +12,7 @@ H=$ROOT/harness
 build() { # $1 = variant
   local v=$1 feat=""
   [ "$v" = full ] && feat="--features full"
+  [ "$v" = html ] && feat="--features html"
   ( cd "$H" && cargo build --release --offline $feat --target-dir "$H/target/$v" ) >"$H/target-$v.log" 2>&1
   local rc=$?
   if [ $rc -ne 0 ]; then
@@ -66,7 +67,7 @@ PY
 case "${1:-}" in
   build)
     mkdir -p "$H/target"
-    build full; build min; echo "built"; exit 0 ;;
+    build full; build min; build html; echo "built"; exit 0 ;;
   quick|thorough)
     tier=$1; id=${2:?property id}
     seed=${VERIF_SEED:-1}
@@ -79,7 +80,7 @@ case "${1:-}" in
     nvar=$(echo $variants | wc -w); k=0
     for v in $variants; do
       k=$((k+1))
-      [ "$v" = min ] && build min
+      [ "$v" != full ] && build "$v"
       out="$EVD/$id.json"
       [ $k -lt $nvar ] && out="$EVD/.$id.part.json"
       "$H/target/$v/release/qxv" check "$id" --tier "$tier" --seed "$seed" $merge --out "$out"
